@@ -158,6 +158,13 @@ func cmdConform(args []string) int {
 		if b, _ := l.Opts["yieldAtGo"].(bool); b {
 			continue
 		}
+		// map-order lemmas are nondeterministic natively (Go randomises map iteration)
+		if b, _ := l.Opts["nondetMapOrder"].(bool); b {
+			continue
+		}
+		if b, _ := l.Opts["nondetMapInsert"].(bool); b {
+			continue
+		}
 		byDir[l.Dir] = append(byDir[l.Dir], l)
 	}
 	var dirs []string
